@@ -17,7 +17,14 @@ import (
 // Rng is SplitMix64; every random choice of a suite derives from one seed.
 type Rng struct{ s uint64 }
 
-func NewRng(seed uint64) *Rng { return &Rng{s: seed*0x9E3779B97F4A7C15 + 0x1234567} }
+func NewRng(seed uint64) *Rng {
+	// Scramble the seed first: with a plain affine start, seed+1 would replay seed's stream
+	// shifted by one draw.
+	z := seed + 0x632BE59BD9B4E019
+	z = (z ^ (z >> 30)) * 0xBF58476D1CE4E5B9
+	z = (z ^ (z >> 27)) * 0x94D049BB133111EB
+	return &Rng{s: z ^ (z >> 31)}
+}
 
 func (r *Rng) U64() uint64 {
 	r.s += 0x9E3779B97F4A7C15
@@ -229,6 +236,18 @@ func UnHex(s string) []byte {
 		panic(err)
 	}
 	return b
+}
+
+// TempDir creates a scratch directory, on tmpfs when available (fsync on the shared disk is slow
+// and noisy under load); the caller removes it.
+func TempDir(prefix string) string {
+	base := ""
+	if st, err := os.Stat("/dev/shm"); err == nil && st.IsDir() {
+		base = "/dev/shm"
+	}
+	d, err := os.MkdirTemp(base, prefix)
+	must(err)
+	return d
 }
 
 // Try runs f and reports whether it panicked.
